@@ -37,6 +37,29 @@ def compare(oracle, prelude, main):
     return "error" not in base, d
 
 
+def compare_pair(main_a, main_b):
+    a, b = fresh.run_scenario([], main_a), fresh.run_scenario([], main_b)
+    return "error" not in a, first_difference(a, b)
+
+
+def pair_shard(items):
+    """items: [(oracle name, description, main action A (reference), main action B)] — each action in its own interpreter."""
+    p = Partial()
+    for oracle, desc, main_a, main_b in items:
+        nontrivial, d = compare_pair(main_a, main_b)
+        p.evaluations += 1
+        p.traces += 1
+        if nontrivial:
+            p.nontrivial += 1
+        p.counters["fresh-interpreter-differential"] += 1
+        if d:
+            p.violation(dict(oracle=oracle, field="depends-on-process-history"), dict(kind="fresh-pair", oracle=oracle, desc=desc, a=main_a, b=main_b),
+                        f"in fresh interpreters: {desc}: {d.replace('without the prelude', 'in the reference run')}", size=(len(str(main_b)),))
+    if items:
+        p.sample(dict(kind="fresh-pair", a=items[0][2], b=items[0][3]))
+    return p
+
+
 def shard(items):
     """items: [(oracle name, prelude, main)]"""
     p = Partial()
@@ -56,5 +79,8 @@ def shard(items):
 
 
 def replay(case):
+    if case["kind"] == "fresh-pair":
+        _n, d = compare_pair(case["a"], case["b"])
+        return [(dict(oracle=case["oracle"], field="depends-on-process-history"), d.replace("without the prelude", "in the reference run"))] if d else []
     _n, d = compare(case["oracle"], case["prelude"], case["main"])
     return [(dict(oracle=case["oracle"], field="depends-on-process-history"), d)] if d else []
